@@ -1288,8 +1288,8 @@ func (n *ReconcileNode) createENI(ctx context.Context, node *networkv1beta1.Node
 			node.Status.NetworkInterfaces[result.NetworkInterfaceID] = &networkv1beta1.NetworkInterface{
 				ID:                          result.NetworkInterfaceID,
 				Status:                      aliyunClient.ENIStatusDeleting,
-				NetworkInterfaceType:        networkv1beta1.ENIType(result.Type),
-				NetworkInterfaceTrafficMode: networkv1beta1.NetworkInterfaceTrafficMode(result.NetworkInterfaceTrafficMode),
+				NetworkInterfaceType:        opt.eniTypeKey.ENIType,
+				NetworkInterfaceTrafficMode: opt.eniTypeKey.NetworkInterfaceTrafficMode,
 			}
 			MetaCtx(ctx).Mutex.Unlock()
 
